@@ -194,8 +194,10 @@ TSilent ==
      \/ CloseQRun \/ ChannelDispose
      \* an interval timer fires: only worth it if it produces the next recorded delivery
      \/ \E o \in Ops : TimerPost(o) /\ Posted(o) < Len(cx.ops[o]) /\ cx.ops[o][Posted(o) + 1].done = 0
-     \/ \E d \in Dirs : SqTimer(d) /\ LET o == Head(sq[d]).o IN
-                                       (op[o].st = "listed" => (Posted(o)' = Posted(o) + 1 /\ NextMatches(o)))
+     \/ \E d \in Dirs, o \in Ops :
+           /\ SqHead(d, "timer") /\ o = Head(sq[d]).o
+           /\ SqTimer(d)
+           /\ op[o].st = "listed" => (Len(opq'[o]) = Len(opq[o]) + 1 /\ NextMatches(o))
      \/ \E o \in Ops : op[o].conv /\ HandlerRun(o)      \* the internal handler of a convenience call
 
 \* depth-first search explores the LAST disjunct's successors first: consuming a record is
